@@ -181,7 +181,7 @@ def eval_unit(unit, tier):
                 want = fd.expect_clause if isinstance(fd.expect_clause, (list, tuple)) else [fd.expect_clause]
                 errs = []
                 for w in want:
-                    errs += pf["safety"] if w == "safety" else pf["clauses"].get(f"{fd.fn_key}#{w}", [])
+                    errs += pf["safety"] if w == "safety" else (pf.get("proof", []) if w == "proof" else pf["clauses"].get(f"{fd.fn_key}#{w}", []))
             out["findings"].append({"id": fd.fid, "props": list(fd.props), "fn": fd.fn_key, "what": fd.what,
                                     "still_fails": bool(errs), "detail": [e["rendered"] for e in errs][:3], "domain": fd.domain_requires})
     out["wall_s"] = time.time() - t0
